@@ -583,7 +583,8 @@ def run(ctx):
         specs.append(phase_cli.make_spec(rng, trio=(i % 3 == 0), tag="PS", low_cov_gaps=False, **kw))
     for nv in ctx.n([70, 140, 270], [70, 70, 140, 140, 270, 270, 520]):
         for trio in (False, True):
-            specs.append(phase_cli.make_large_spec(rng, nv, trio=trio, tag="PS", low_cov_gaps=False, k=rng.choice([2, 3, 5])))
+            specs.append(phase_cli.make_large_spec(rng, nv, trio=trio, tag="PS", low_cov_gaps=False, k=rng.choice([2, 3, 5]),
+                                                   depth_reads=nv * rng.choice([2, 10])))
     check_cli(ctx, specs, "cli")
     check_cli_stacked(ctx, gen_stacked_specs(ctx), "st")
     check_cap_limit(ctx)
